@@ -178,6 +178,7 @@ package node
 //@   requires[sel01] srcsel <= 1
 //@   loop 0 invariant[stmts] -1 <= rangeindex && rangeindex < len(b.Body) && emitInv(cr)
 //@   loop 0 invariant[last] (rangeindex == len(b.Body) - 1 || len(b.Body) == 0) ==> (descOnly(instr, srcsel) && operandOK(instr, srcsel, len(*cr.DS)) && bck(instr, srcsel) != bytecode.AddrImm
+//@       && (rangeindex >= 0 && bck(instr, srcsel) == bytecode.AddrInv ==> fl.Data().Discard || fl.Data().Returning || fl.Data().InFunc)
 //@       && (bck(instr, srcsel) == bytecode.AddrTmp ==> !fl.Data().ForbidTemp && (fl.Data().OpDepth > 0 || fl.Data().AcceptTemp || fl.Data().Discard)))
 //
 // condition emits the code of a condition followed by its (still unpatched) conditional jump and
